@@ -10,5 +10,5 @@ cargo nextest run --offline -p jj-lib -p jj-cli $FILTER 2>&1 | tail -4; echo "DE
 echo "== apply change"; git apply $SD/patch.diff || { echo "PATCH-APPLY-FAILED"; exit 2; }
 cargo nextest run --offline -p jj-lib -p jj-cli $FILTER 2>&1 | tail -6; echo "DEMO_WITH_CHANGE_EXIT=${PIPESTATUS[0]}"
 echo "== existing tests with the change ($*)"
-cargo nextest run --offline --no-fail-fast "$@" 2>&1 | grep -E "^\s+(FAIL|Summary)|tests run" | sort | uniq -c | sort -rn | head -40; echo "SUBSET_EXIT=${PIPESTATUS[0]}"
+cargo nextest run --offline --no-fail-fast "$@" 2>&1 | grep -E "^\s+(FAIL|Summary)|tests run" | sort | uniq -c | sort -rn | head -400; echo "SUBSET_EXIT=${PIPESTATUS[0]}"
 git checkout -q -- . && git clean -fdq -e out -e target
